@@ -8,6 +8,7 @@ mod filterfmt;
 mod hist;
 mod lockfmt;
 mod logfmt;
+mod sched;
 mod simfs;
 mod tablefmt;
 mod trace;
@@ -85,6 +86,7 @@ fn hist_cfg_for(seed: u64, m: &HashMap<String, String>) -> hist::HistCfg {
         bias_snap: m.contains_key("snap-bias"),
         bias_compact: m.contains_key("compact-bias"),
         bias_reopen: m.contains_key("reopen-bias"),
+        descriptors: m.contains_key("descriptors"),
     }
 }
 
@@ -378,6 +380,8 @@ fn main() {
         "hist" => cmd_hist(&m),
         "crash" => cmd_crash(&m),
         "fault" => cmd_fault(&m),
+        "sched" => sched::cmd(&m),
+        "live" => sched::cmd_live(&m),
         "logfmt" => logfmt::cmd(&m),
         "lockfmt" => lockfmt::cmd(&m),
         "tablefmt" => tablefmt::cmd(&m),
